@@ -70,42 +70,49 @@ func (line *Line) ContainsLine(other *Line) bool {
 	if line == nil || other == nil || line.Empty() || other.Empty() {
 		return false
 	}
-	// locate the first "other" segment that contains the first "line" segment.
-	lineNumSegments := line.NumSegments()
-	segIdx := -1
-	for j := 0; j < lineNumSegments; j++ {
-		if line.SegmentAt(j).ContainsSegment(other.SegmentAt(0)) {
-			segIdx = j
-			break
-		}
-	}
-	if segIdx == -1 {
-		return false
-	}
+	// every segment of other must be covered by the segments of line
 	otherNumSegments := other.NumSegments()
-	for i := 1; i < otherNumSegments; i++ {
-		lineSeg := line.SegmentAt(segIdx)
-		otherSeg := other.SegmentAt(i)
-		if lineSeg.ContainsSegment(otherSeg) {
-			continue
-		}
-		if otherSeg.A == lineSeg.A {
-			// reverse it
-			if segIdx == 0 {
-				return false
-			}
-			segIdx--
-			i--
-		} else if otherSeg.A == lineSeg.B {
-			// forward it
-			if segIdx == lineNumSegments-1 {
-				return false
-			}
-			segIdx++
-			i--
+	for i := 0; i < otherNumSegments; i++ {
+		if !line.coversSegment(other.SegmentAt(i)) {
+			return false
 		}
 	}
 	return true
+}
+
+// coversSegment returns true if every point of seg is on the line. It walks
+// from seg.A towards seg.B, each step moving to the farthest end of a line
+// segment that lies along seg and contains the current position.
+func (line *Line) coversSegment(seg Segment) bool {
+	if seg.A == seg.B {
+		return line.ContainsPoint(seg.A)
+	}
+	dx, dy := seg.B.X-seg.A.X, seg.B.Y-seg.A.Y
+	goal := dx*dx + dy*dy
+	cur, curDist := seg.A, 0.0
+	for {
+		best, bestDist := cur, curDist
+		line.Search(Rect{cur, cur}, func(s Segment, _ int) bool {
+			if s.CollinearPoint(seg.A) && s.CollinearPoint(seg.B) &&
+				s.Raycast(cur).On {
+				for _, end := range [2]Point{s.A, s.B} {
+					dist := (end.X-seg.A.X)*dx + (end.Y-seg.A.Y)*dy
+					if dist > bestDist {
+						best, bestDist = end, dist
+					}
+				}
+			}
+			return true
+		})
+		if bestDist >= goal {
+			return true
+		}
+		if best == cur {
+			// nothing on the line continues along seg from here
+			return false
+		}
+		cur, curDist = best, bestDist
+	}
 }
 
 func (line *Line) IntersectsLine(other *Line) bool {
